@@ -274,7 +274,9 @@ func (c *Calcium) SetNode(ctx context.Context, opts *types.SetNodeOptions) (*typ
 				if len(opts.Resources) == 0 {
 					return nil
 				}
-				_, _, err = c.rmgr.SetNodeResourceCapacity(ctx, n.Name, nil, origin, false, plugins.Decr)
+				// origin is the capacity record before the change: write it back as a node resource
+				// (passing it as a request would re-parse it and lose per-core shares)
+				_, _, err = c.rmgr.SetNodeResourceCapacity(ctx, n.Name, origin, nil, false, plugins.Incr)
 				return err
 			},
 			c.config.GlobalTimeout)
